@@ -119,6 +119,14 @@ class ObjTheory(BaseTheory):
     def getitem(self, ex, recv, idx):
         if isinstance(recv, OpaqueStr):
             return OPAQUE_STR
+        s = sval(recv)
+        i = ex.as_int(idx)
+        if s is not None and i is not None and not isinstance(recv, Conc):
+            # text[i]: IndexError outside [-len, len); the character itself is only used to build messages
+            n = strlen(s)
+            if ex.branch(z3.And(i < n, i >= -n), "index-in-range"):
+                return OPAQUE_STR
+            raise PyRaise(ExcV("IndexError"))
         return super().getitem(ex, recv, idx)
 
     def binop(self, ex, op, a, b):
@@ -128,6 +136,8 @@ class ObjTheory(BaseTheory):
         return super().binop(ex, op, a, b)
 
     def eq(self, ex, a, b):
+        if isinstance(a, OpaqueStr) or isinstance(b, OpaqueStr):
+            return fresh("opaque_text_equal", B)        # the content of a message string is unknown: either outcome
         sa, sb = sval(a), sval(b)
         if sa is not None and sb is not None:
             if isinstance(a, Conc) and isinstance(b, Conc):
